@@ -13,7 +13,7 @@ Every function follows the Rust impl of the same name for the same view type **a
 | `build`                                | `Render::build`: view/strings.rs (`String`), view/tuples.rs (`()` = placeholder comment, tuples left to right), html/element/mod.rs (create element, attributes, then children built and mounted with `None` marker; `SELF_CLOSING` elements have no child state), view/iterators.rs (`Option<T>` = `Either<T, ()>`; `Vec`: marker first, then the items), view/either.rs, view/any_view.rs |
 | `rebuild`                              | `Render::rebuild`: strings.rs (set text only if changed), tuples pointwise, either.rs (same branch: rebuild; other branch: build new, `insert_before_this` of the old state, unmount old), iterators.rs `Vec` (old empty: `self.build()` — which allocates and drops a second marker — then `mount_before(marker)` each; new empty: unmount all; else zip-longest: rebuild / build+`mount_before(marker)` / unmount), any_view.rs (same `TypeId`: rebuild; else build, `insert_before_this`, unmount) |
 | `mount`, `unmount`, `insertBeforeThis` | `Mountable::{mount, unmount, insert_before_this}` for the same state types (`VecState` mounts items then its marker; `insert_before_this` of a tuple / `VecState` tries the parts in order, of a node needs a parent element) |
-| `buildAttr`, `rebuildAttr`             | html/attribute/mod.rs `Attr::{build, rebuild}` + attribute/value.rs (`String`: set only if changed; `Option`: `None` removes, `Some` after `None` builds; `bool`: `""` / remove), html/class.rs (`String`, `Option<String>` whose `reset` removes the whole attribute, `(&'static str, bool)` which looks only at the flag), html/style.rs (`String`; `(K, V)`: on a name change `reset` removes the **stored** name, which is never updated; `Option<V>`) |
+| `buildAttr`, `rebuildAttr`             | html/attribute/mod.rs `Attr::{build, rebuild}` + attribute/value.rs (`String`: set only if changed; `Option`: `None` removes, `Some` after `None` builds; `bool`: `""` / remove), html/class.rs (`String`, `Option<String>` whose `reset` removes the whole attribute, `(&'static str, bool)`), html/style.rs (`String`; `(K, V)`; `Option<V>`) — as repaired by hooks/fix-c03-{1,3,4}.patch; `rebuildAttrOld` is the code before the repairs |
 | `render`                               | the DOM a fresh `build` + `mount` produces, as `Dom.Tree`s (the specification side of C03) |
 
 `keyed` is not in this type: the keyed list is modelled over an abstract child list in
@@ -307,11 +307,69 @@ def buildAttrs (el : Id) : List AttrVal → Dom → Dom × List AttrState
     let (d, ss) := buildAttrs el as d
     (d, s :: ss)
 
-/-- `Attribute::rebuild(state)` for one attribute.  `er` = the value went through `into_any()`
+/-- `Attribute::rebuild(state)` for one attribute, **as repaired** by the `fix:` commits of
+hooks/fix-c03-{1,3,4}.patch.  `er` = the value went through `into_any()`
+(`RenderHtml::into_owned`: `Class<String>` is then `Class<Arc<str>>`); since fix-c03-1 that
+`rebuild` compares contents like every other string value, so `er` no longer changes anything
+(the parameter is kept for `rebuildAttrOld` and for the callers).
+* `(name, bool)` class items (fix-c03-3): a changed name removes the old token (if it was on) and
+  adds the new one (if it is on);
+* `(name, value)` style items (fix-c03-4): on a name change the stored name is removed **and
+  updated**. -/
+def rebuildAttr (_er : Bool) (el : Id) (d : Dom) : AttrVal → AttrState → Dom × AttrState
+  | .str n v, .str prev => ((if v != prev then d.setAttribute el n v else d), .str v)
+  | .ostr _ none, .ostr none => (d, .ostr none)
+  | .ostr n none, .ostr (some _) => (d.removeAttribute el n, .ostr none)
+  | .ostr n (some v), .ostr none => (d.setAttribute el n v, .ostr (some v))
+  | .ostr n (some v), .ostr (some prev) =>
+    ((if v != prev then d.setAttribute el n v else d), .ostr (some v))
+  | .bool n b, .bool prev =>
+    ((if b != prev then (if b then d.setAttribute el n "" else d.removeAttribute el n) else d), .bool b)
+  | .cls v, .cls prev => ((if v != prev then d.setAttribute el "class" v else d), .cls v)
+  | .ocls none, .ocls none => (d, .ocls none)
+  | .ocls none, .ocls (some _) => (d.removeAttribute el "class", .ocls none)
+  | .ocls (some v), .ocls none => (d.setAttribute el "class" v, .ocls (some v))
+  | .ocls (some v), .ocls (some prev) =>
+    ((if v != prev then d.setAttribute el "class" v else d), .ocls (some v))
+  | .tcls name on, .tcls prevOn prevName =>
+    if name != prevName then
+      let d := if prevOn then d.removeClass el prevName else d
+      ((if on then d.addClass el name else d), .tcls on name)
+    else
+      ((if on != prevOn then (if on then d.addClass el name else d.removeClass el name) else d),
+        .tcls on name)
+  | .sty v, .sty prev => ((if v != prev then d.setAttribute el "style" v else d), .sty v)
+  | .psty name v, .psty sname sv =>
+    if name != sname then
+      ((d.removeCssProperty el sname).setCssProperty el name v, .psty name v)
+    else ((if v != sv then d.setCssProperty el name v else d), .psty sname v)
+  | .opsty name v, .opsty sname sv =>
+    if name != sname then
+      let d := d.removeCssProperty el sname
+      ((match v with | some x => d.setCssProperty el name x | none => d), .opsty name v)
+    else
+      let d := match sv, v with
+        | none, none => d
+        | some _, none => d.removeCssProperty el name
+        | none, some x => d.setCssProperty el name x
+        | some o, some x => if x != o then d.setCssProperty el name x else d
+      (d, .opsty sname v)
+  | _, s => (d, s)
+
+def rebuildAttrs (er : Bool) (el : Id) :
+    List AttrVal → List AttrState → Dom → Dom × List AttrState
+  | a :: as, s :: ss, d =>
+    let (d, s') := rebuildAttr er el d a s
+    let (d, ss') := rebuildAttrs er el as ss d
+    (d, s' :: ss')
+  | _, ss, d => (d, ss)
+
+/-- `Attribute::rebuild(state)` **before the repairs** (kept for the regression witnesses
+`C03_*_witness_old` in Theorems/C03.lean).  `er` = the value went through `into_any()`
 (`RenderHtml::into_owned`): `Class<String>` is then `Class<Arc<str>>`, whose `rebuild` compares
 pointers (`Arc::ptr_eq`), i.e. always writes the attribute; every other conversion
 (`Attr<K, Arc<str>>`, `Style<Arc<str>>`) still compares contents. -/
-def rebuildAttr (er : Bool) (el : Id) (d : Dom) : AttrVal → AttrState → Dom × AttrState
+def rebuildAttrOld (er : Bool) (el : Id) (d : Dom) : AttrVal → AttrState → Dom × AttrState
   | .str n v, .str prev => ((if v != prev then d.setAttribute el n v else d), .str v)
   | .ostr _ none, .ostr none => (d, .ostr none)
   | .ostr n none, .ostr (some _) => (d.removeAttribute el n, .ostr none)
@@ -348,11 +406,11 @@ def rebuildAttr (er : Bool) (el : Id) (d : Dom) : AttrVal → AttrState → Dom 
       (d, .opsty sname v)
   | _, s => (d, s)
 
-def rebuildAttrs (er : Bool) (el : Id) :
+def rebuildAttrsOld (er : Bool) (el : Id) :
     List AttrVal → List AttrState → Dom → Dom × List AttrState
   | a :: as, s :: ss, d =>
-    let (d, s') := rebuildAttr er el d a s
-    let (d, ss') := rebuildAttrs er el as ss d
+    let (d, s') := rebuildAttrOld er el d a s
+    let (d, ss') := rebuildAttrsOld er el as ss d
     (d, s' :: ss')
   | _, ss, d => (d, ss)
 
@@ -523,6 +581,27 @@ def dupItem (as : List AttrVal) : Bool :=
 def zipAny {α β : Type} (f : α → β → Bool) : List α → List β → Bool
   | a :: as, b :: bs => f a b || zipAny f as bs
   | _, _ => false
+
+/-- names one position uses in the old and in the new value -/
+def posNames (n m : String) : List String := if n == m then [n] else [n, m]
+
+def toggleNamePairs : List AttrVal → List AttrVal → List String
+  | .tcls n _ :: r, .tcls m _ :: r' => posNames n m ++ toggleNamePairs r r'
+  | _ :: r, _ :: r' => toggleNamePairs r r'
+  | _, _ => []
+
+def normProp (n : String) : String := String.ofList (normName (trimL n.toList))
+
+def stylePropNamePairs : List AttrVal → List AttrVal → List String
+  | .psty n _ :: r, .psty m _ :: r' => posNames (normProp n) (normProp m) ++ stylePropNamePairs r r'
+  | .opsty n _ :: r, .opsty m _ :: r' => posNames (normProp n) (normProp m) ++ stylePropNamePairs r r'
+  | _ :: r, _ :: r' => stylePropNamePairs r r'
+  | _, _ => []
+
+/-- `dupItem` across a rebuild: two *different* items of one element name the same class token /
+style property in the old or the new value (a renamed item may collide with a sibling item) -/
+def dupItemPair (as bs : List AttrVal) : Bool :=
+  !nodupS (toggleNamePairs as bs) || !nodupS (stylePropNamePairs as bs)
 
 /-- a `(name, bool)` class item changed its name between two values -/
 def toggleRenamed (as bs : List AttrVal) : Bool :=
